@@ -7,6 +7,8 @@
 (* thread performs through a ThreadLocal handle it constructs itself:      *)
 (*   init(v)   construct a handle with initial value v: takes effect only  *)
 (*             if the thread's slot is empty; observes the slot's value    *)
+(*   initialize(v)  Initialize(v) through a handle constructed without     *)
+(*             arguments: the same "first initialisation wins" rule         *)
 (*   set(v)    construct a handle (initialising with v if empty) and       *)
 (*             assign v through Get(); observes v                          *)
 (*   clear     empty the thread's slot                                     *)
@@ -17,7 +19,7 @@ EXTENDS Naturals, Integers, Sequences, TLC
 NoneV == -1
 TLStep(tl, t, op) ==
   LET cur == tl[t][op.slot] IN
-  CASE op.op = "init" -> LET v == IF cur = NoneV THEN op.val ELSE cur IN [tl |-> [tl EXCEPT ![t][op.slot] = v], obs |-> v]
+  CASE op.op \in {"init", "initialize"} -> LET v == IF cur = NoneV THEN op.val ELSE cur IN [tl |-> [tl EXCEPT ![t][op.slot] = v], obs |-> v]
     [] op.op = "set" -> [tl |-> [tl EXCEPT ![t][op.slot] = op.val], obs |-> op.val]
     [] op.op = "clear" -> [tl |-> [tl EXCEPT ![t][op.slot] = NoneV], obs |-> NoneV]
     [] OTHER -> [tl |-> tl, obs |-> NoneV]       \* codec operations on the thread's own objects do not touch tl
